@@ -607,6 +607,28 @@ pub fn tid() -> u64 {
     })
 }
 
+/// copy `len` bytes at `off` of `src` into `dst` at the same offset; `dst` is created / extended (with holes) to `flen`
+pub fn copy_range(src: &Path, dst: &Path, off: u64, len: u64, flen: u64) -> std::io::Result<()> {
+    use std::os::unix::fs::FileExt;
+    let s = std::fs::File::open(src)?;
+    let d = std::fs::OpenOptions::new().write(true).create(true).open(dst)?;
+    if d.metadata()?.len() < flen {
+        d.set_len(flen)?;
+    }
+    let mut buf = vec![0u8; 1 << 16];
+    let mut done = 0u64;
+    while done < len {
+        let n = ((len - done) as usize).min(buf.len());
+        let got = s.read_at(&mut buf[..n], off + done)?;
+        if got == 0 {
+            break
+        }
+        d.write_all_at(&buf[..got], off + done)?;
+        done += got as u64;
+    }
+    Ok(())
+}
+
 pub fn is_data_file(name: &str) -> bool {
     name.starts_with("table_") || name.starts_with("index_") || name.starts_with("refcount_")
 }
@@ -726,7 +748,8 @@ impl DurableState {
 
 pub struct Recorder {
     /// table files stored to since their last msync (only to drop no-op msync events)
-    dirty: Mutex<std::collections::HashSet<String>>,
+    /// (with the byte range stored to: an msync cleans a file only if it covers that range)
+    dirty: Mutex<HashMap<String, (u64, u64)>>,
     /// power-loss images: the database directory being observed, a shadow directory holding every table /
     /// index / ref-count file as it was at its last successful msync, and the synced length of every log file
     pub durable: Mutex<Option<DurableState>>,
@@ -769,7 +792,15 @@ impl Recorder {
             let mut g = self.durable.lock().unwrap();
             if let Some(d) = g.as_mut() {
                 if call == "msync" && !name.starts_with("log") {
-                    let _ = crate::sys::quiet(|| copy_sparse(&d.db_dir.join(name), &d.shadow.join(name)));
+                    // only the byte range the call covered is durable now (a mapping is longer than its file: a
+                    // range that reaches the end of the file is the whole file)
+                    let (off, len) = crate::sys::MSYNC_RANGE.with(|m| m.get());
+                    let flen = std::fs::metadata(d.db_dir.join(name)).map(|m| m.len()).unwrap_or(0);
+                    if off == 0 && len >= flen {
+                        let _ = crate::sys::quiet(|| copy_sparse(&d.db_dir.join(name), &d.shadow.join(name)));
+                    } else {
+                        let _ = crate::sys::quiet(|| copy_range(&d.db_dir.join(name), &d.shadow.join(name), off, len.min(flen.saturating_sub(off)), flen));
+                    }
                 } else if (call == "fdatasync" || call == "fsync") && name.starts_with("log") {
                     if let Ok(m) = std::fs::metadata(d.db_dir.join(name)) {
                         d.log_synced.insert(name.to_string(), m.len());
@@ -782,10 +813,24 @@ impl Recorder {
         }
         // an msync of a file with no store since its last msync changes nothing in the trace spec
         // (the dirty set): leave it out, a clean-up pass msyncs every table of every column
+        let mut call = call;
         if call == "msync" && ret == 0 {
             let mut d = self.dirty.lock().unwrap();
-            if !d.remove(name) {
-                return
+            match d.get(name).copied() {
+                None => return,
+                Some((lo, hi)) => {
+                    let (off, len) = crate::sys::MSYNC_RANGE.with(|m| m.get());
+                    if off <= lo && off.saturating_add(len) >= hi {
+                        d.remove(name);
+                    } else {
+                        // stores beyond the range are not durable: the trace specification does not know this
+                        // event, the file stays dirty there and the next log truncation is rejected
+                        call = "msync_partial";
+                        if std::env::var("PDBH_DEBUG").is_ok() {
+                            eprintln!("msync_partial {name}: msync covers {off}+{len}, stores {lo}..{hi}");
+                        }
+                    }
+                },
             }
         }
         let mut pos = 0usize;
@@ -813,7 +858,13 @@ impl Recorder {
                 };
                 // a run of stores to the same file is one event (the trace spec only needs which
                 // file was dirtied while which record was being applied)
-                self.dirty.lock().unwrap().insert(f.clone());
+                {
+                    let (lo, hi) = if args[0] == 1 && args.len() >= 4 { (args[2], args[2] + args[3]) } else { (u64::MAX, 0) };
+                    let mut d = self.dirty.lock().unwrap();
+                    let e = d.entry(f.clone()).or_insert((lo, hi));
+                    e.0 = e.0.min(lo);
+                    e.1 = e.1.max(hi);
+                }
                 let same = ev.last().map_or(false, |l| l["e"] == "TabWrite" && l["f"] == f.as_str() && l["t"] == tid());
                 if !same {
                     ev.push(json!({"e": name, "a": args, "f": f, "t": tid()}));
